@@ -12,18 +12,12 @@ open MongoModel.Proofs.C10Lemmas MongoModel.Proofs.C09Lemmas
 def IdKept (cur new : Val) : Prop :=
   pyEq new cur = true ∨ pyEqOpt (idOf cur) (idOf new) = true
 
-theorem pyEqOrdered_pyEq (a b : Val) (h : pyEqOrdered a b = true) : pyEq a b = true := by
-  unfold pyEqOrdered at h
-  split at h
-  · simp only [Bool.and_eq_true] at h; exact h.1
-  · exact h
-
 theorem updateLoop_hit (now : Int) (spec document nowV : Val) (multi : Bool) (key v0 : Val)
     (rest : List (Val × Val)) (c : Coll) (m u : Nat) (cur new : Val)
     (hl : c.lookup key = some cur) (hb : filterApplies spec cur = .ok true)
     (ha : applyUpdate spec document nowV false cur = .ok new) :
     updateLoop now spec document nowV multi ((key, v0) :: rest) c m u =
-      if (if c.isOD key then pyEqOrdered new cur else pyEq new cur) then
+      if pyEq new cur then
         (match ensureUniques now (c.setDoc key new) new with
         | .error e => (c, .error e)
         | .ok c2 =>
@@ -75,7 +69,7 @@ theorem loop_first (now : Int) (spec document nowV : Val) :
         rw [updateLoop, hl']; dsimp only; rw [hb']; dsimp only; rw [ha]
       | ok new =>
         rw [updateLoop_hit now spec document nowV false key v rest c m u v new hl' hb' ha]
-        by_cases hc : (if c.isOD key then pyEqOrdered new v else pyEq new v) = true
+        by_cases hc : pyEq new v = true
         · rw [if_pos hc]
           -- the unique indexes are checked on the "unchanged" branch as well
           cases hu : ensureUniques now (c.setDoc key new) new with
@@ -87,9 +81,7 @@ theorem loop_first (now : Int) (spec document nowV : Val) :
             right
             refine ⟨new, u, by simp, ?_, rfl⟩
             left
-            split at hc
-            · exact pyEqOrdered_pyEq _ _ hc
-            · exact hc
+            exact hc
         · rw [if_neg hc]
           by_cases hq : pyEqOpt (idOf v) (idOf new) = true
           · simp only [hq, Bool.not_true, Bool.false_eq_true, if_false]
